@@ -411,8 +411,16 @@ impl RandomProp for Rings {
     fn strategy(_env: &Env) -> BoxedStrategy<RingCase> {
         let tys = prop_oneof![Just(Ty::Polygon), Just(Ty::PolygonM), Just(Ty::PolygonZ), Just(Ty::Multipatch)];
         let hows = prop_oneof![2 => Just(How::New), 3 => Just(How::WithRings), 2 => Just(How::Macro)];
-        (tys, hows, any::<bool>())
-            .prop_flat_map(|(ty, how, dyadic)| {
+        // coordinate domain: 0 = dyadic near the origin, 1 = dyadic far from the origin, 2 = tiny rings far from
+        // the origin (exact edge-wise sum, catastrophic for naive formulas), 3.. = arbitrary non-NaN doubles
+        let base = || prop_oneof![
+            3 => (-8_388_608i64..=8_388_608).prop_map(|k| k as f64),
+            1 => Just(500_000.0f64),
+            1 => Just(4_649_776.0f64),
+        ];
+        (tys, hows, 0u8..6, base(), base())
+            .prop_flat_map(|(ty, how, domain, bx, by)| {
+                let dyadic = domain <= 2;
                 let n = if how == How::Macro { 1usize..=2 } else { 1usize..=6 };
                 let ring = if how == How::Macro {
                     // macro arities: 3..=5 vertices, no pre-closing so that the arity is what the harness spells out
@@ -422,7 +430,21 @@ impl RandomProp for Rings {
                 } else {
                     ring_strategy(ty, dyadic)
                 };
-                proptest::collection::vec(ring, n).prop_map(move |rings| RingCase { ty, how, rings })
+                proptest::collection::vec(ring, n).prop_map(move |mut rings| {
+                    if domain == 1 || domain == 2 {
+                        let scale = if domain == 2 { 1.0 / 1024.0 } else { 1.0 / 16.0 };
+                        for r in rings.iter_mut() {
+                            for v in r.pts.iter_mut() {
+                                // keep multiples of 1/256: shrink the local coordinates, then move them far away
+                                let lx = (v[0].v() * scale * 256.0).trunc() / 256.0;
+                                let ly = (v[1].v() * scale * 256.0).trunc() / 256.0;
+                                v[0] = F::of(lx + bx);
+                                v[1] = F::of(ly + by);
+                            }
+                        }
+                    }
+                    RingCase { ty, how, rings }
+                })
             })
             .boxed()
     }
